@@ -9,6 +9,7 @@ violation is still reported with the verifier's trace and the VIOLATION line end
 """
 import hashlib
 import os
+import re
 import shutil
 import subprocess
 import tempfile
@@ -178,6 +179,30 @@ def scenario_too_big(exe, workroot, option=None):
         if rc != 78:
             return True, 'config "nl_max = 2; %s = 3" is accepted (exit status %d instead of EX_CONFIG)' % (n, rc)
     return False, '%d inconsistent configurations all refused with EX_CONFIG' % len(names)
+
+
+def scenario_bad_numbers(exe, workroot):
+    """C16: numeric option lines that must be diagnosed and must leave the option untouched (compared with the dump of an empty config)."""
+    d = _tmp(workroot)
+    base = run(exe, ['-c', _cfg(d, '\n', 'empty.cfg'), '--update-config'])[1].decode(errors='replace')
+
+    def val(dump, opt):
+        l = [x for x in dump.splitlines() if x.split('=')[0].strip() == opt]
+        return l[0].split('=', 1)[1].split('#')[0].strip() if l else None
+    cases = [('mod_sort_oc_property_class_weight', '4294967298'), ('mod_sort_oc_property_getter_weight', '99999999999999999999'), ('debug_timeout', '-4294967295'),
+             ('indent_columns', '4294967298'), ('code_width', '4294967336'), ('nl_max', '-indent_columns'), ('align_var_def_span', '-indent_columns'),
+             ('input_tab_size', '""'), ('indent_cmt_with_tabs', '""'), ('output_tab_size', '33'), ('indent_columns', '12abc')]
+    for opt, v in cases:
+        cfg = _cfg(d, '%s = %s\n' % (opt, v))
+        rc, out, err = run(exe, ['-c', cfg, '--update-config'])
+        e = err.decode(errors='replace')
+        if val(out.decode(errors='replace'), opt) != val(base, opt):
+            return True, 'config line "%s = %s" changes the option to %s (default %s)' % (opt, v, val(out.decode(errors='replace'), opt), val(base, opt))
+        if opt not in e:
+            return True, 'config line "%s = %s" is not diagnosed on stderr' % (opt, v)
+        if v == '""' and not re.search(r"got ''", e):
+            return True, 'config line "%s = %s": the diagnostic prints bytes from behind the end of the (empty) value: %r' % (opt, v, e[-120:])
+    return False, '%d bad numeric lines all diagnosed and without effect' % len(cases)
 
 
 ENUM_SAMPLES = {'sp_arith': ['ignore', 'add', 'remove', 'force'], 'newlines': ['lf', 'crlf', 'cr', 'auto'],
@@ -424,7 +449,7 @@ if __name__ == '__main__':
     sys.path.insert(0, os.path.dirname(os.path.abspath(__file__)))
     import gen
     gen.gen_options(os.environ.get('VERIF_REPO', '/repo'), os.path.join(w, 'gen'))
-    for sc in (scenario_md5_after_rename, scenario_failed_close, scenario_failed_backup, scenario_check_truth, scenario_too_big, scenario_enum_roundtrip,
+    for sc in (scenario_bad_numbers, scenario_md5_after_rename, scenario_failed_close, scenario_failed_backup, scenario_check_truth, scenario_too_big, scenario_enum_roundtrip,
                scenario_gating_default, scenario_lang_leak, scenario_line_endings, scenario_encoding, scenario_whitespace_hygiene, scenario_ignored_region,
                scenario_blank_lines, scenario_sp_bool_site, lambda e, w_: scenario_spacing_option(e, w_, 'sp_arith')):
         try:
